@@ -205,6 +205,9 @@ def B1_B2_counts(rep, flow: Flow, want=("B1", "B2")):
         if q is None:
             raise AnalysisError(f"{pyfacts.where(f, c)}: bit order of the stored outcome is outside the qualifier algebra [{pyfacts.norm_stmt(c)}]")
         want_reg = "register" if br == "full" else lp
+        if br == "subset" and q[0] in ("ILE", "IBE") and q[1] == ("sorted", lp):
+            rep.finding(rid, f"{A_COUNTS_PARSER}:{br}:sorted", f"{pyfacts.where(f, c)}: the stored outcome comes from marginal_counts(), which orders the selected bits by ascending qubit index: bit j is the j-th SMALLEST listed qubit, not list position j; the readout was composed in the caller's order [{pyfacts.norm_stmt(c)}]")
+            return
         if q[0] == "ILE" and q[1] == want_reg and (len(q) < 3 or q[2] == "ok"):
             rep.ok(rid, 1, nontrivial=(br, pyfacts.norm_stmt(c)), sample=f"{br} path: stored outcome is little-endian over {want_reg} [{pyfacts.norm_stmt(c)[:80]}]")
         elif q[0] == "ILE" and len(q) == 3 and q[2] == "mirror":
